@@ -169,6 +169,48 @@ class Explorer:
         self.states += 1
         return True
 
+    def overlap2(self, idx, tts, parsing):
+        """two solve tasks of one problem whose result writes are both still on their way: every ordered pair of different
+        strategies x both orders in which the two writes reach the database; afterwards BOTH results must be stored"""
+        nm = names(len(tts))
+        code = adf_text(tts, nm)
+        k = 0
+        for i, (s1, f1) in enumerate(STRATEGIES):
+            for j, (s2, f2) in enumerate(STRATEGIES):
+                if i == j:
+                    continue
+                for first in (0, 1):
+                    k += 1
+                    name = "o%d_%d%s" % (idx, k, parsing)
+                    case = {"type": "overlap2", "tts": list(tts), "parsing": parsing, "code": code, "strategies": [s1, s2], "write_applied_first": first}
+                    if not self.add_problem(name, code, parsing, False, case):
+                        return
+                    ok = True
+                    for n, s in ((1, s1), (2, s2)):
+                        st, body = self.c.solve(name, s)
+                        self.requests += 1
+                        self.transitions += 1
+                        if st // 100 != 2:
+                            self.v("solve-refused", "solve %s answered %s %s while the result write of %s is on its way" % (s, st, body[:100], s1), case)
+                            ok = False
+                            break
+                        if not self.wait_bg(n, "the result write of %s" % s, name, case):
+                            ok = False
+                            break
+                    if not ok:
+                        while self.stub.bg_writes:
+                            self.stub.apply_bg(0)
+                        continue
+                    self.stub.apply_bg(first)
+                    self.stub.apply_bg(0)
+                    self.transitions += 2
+                    st, d = self.get(name)
+                    if d is None:
+                        self.v("get-failed", "GET answered %s after two overlapping solves" % st, case)
+                        continue
+                    self.judge(d, tts, nm, {f1, f2}, case, "after %s and %s ran with both result writes pending (the write of %s applied first)" % (s1, s2, (s1, s2)[first]))
+                    self.states += 1
+
     def linear(self, idx, tts, parsing, order, nm=None, layout=0):
         nm = nm or names(len(tts))
         code = adf_text(tts, nm)
@@ -440,6 +482,10 @@ def worker(server_bin, spec):
                 j = li * 4 + ti
                 if j % of == shard:
                     ex.linear(5000 + j, tts, ("Naive", "Hybrid")[(li + ti) % 2], [(k + j) % 6 for k in range(6)], nm=nm)
+        # two solve tasks with both result writes pending
+        for j, (tts, parsing) in enumerate([((6, 9), "Naive"), ((0xe, 0x1), "Hybrid")] + ([] if quick else [((0x5, 0xc), "Hybrid"), ((0x8, 0x6), "Naive")])):
+            if j % of == shard:
+                ex.overlap2(j, tts, parsing)
         # layouts: line breaks / blanks and tabs after facts and around commas (plain labels)
         for j, (tts, lay) in enumerate([((6, 9), 1), ((0xe, 0x1), 2), ((0x5, 0xc), 1), ((0x8, 0x6), 2), ((0x9, 0x6), 1), ((0x6, 0x9), 2)]):
             if j % of == shard:
@@ -484,6 +530,8 @@ def replay(server_bin, case):
         ex.login()
         if case["type"] == "bad":
             ex.bad_code(0, case["what"], case["code"], case["parsing"])
+        elif case["type"] == "overlap2":
+            ex.overlap2(0, tuple(case["tts"]), case["parsing"])
         elif case["type"] == "lattice":
             ex.lattice(0, tuple(case["tts"]), case["parsing"])
         elif case["type"] == "reuse":
